@@ -37,6 +37,13 @@ typedef struct
 typedef int (*vomp_chooser)(void* user, const vomp_point* p, const int* enabled);
 
 void vomp_set_chooser(vomp_chooser c, void* user);
+/* Built-in replay chooser (preferred over vomp_set_chooser: no callback into instrumented code): at the i-th choice point take
+   prefix[i] (i < n; an out-of-range value = divergence, recorded) and 0 afterwards; every choice point is logged. */
+typedef struct { int tid, kind, n_enabled, running_enabled, chosen, next; const char* site; } vomp_logged_point;
+void vomp_replay_begin(const int* prefix, int n);
+void vomp_replay_pause(int on); /* 1: choice points are neither replayed nor logged (set-up phases of a body) */
+int vomp_replay_end(const vomp_logged_point** log, int* diverged); /* returns the number of logged choice points */
+
 /* called at EVERY schedule point of a team (also when only one thread is enabled), after the choice: `next` = id of the thread that
    runs next.  Used to record complete event traces (model conformance, DESIGN 3.5). */
 typedef void (*vomp_observer)(void* user, const vomp_point* p, int next);
